@@ -356,6 +356,9 @@ impl<P: PageTableFrameMapping> Mapper<Size2MiB> for MappedPageTable<'_, P> {
         if p3_entry.is_unused() {
             return Err(FlagUpdateError::PageNotMapped);
         }
+        if p3_entry.flags().contains(PageTableFlags::HUGE_PAGE) {
+            return Err(FlagUpdateError::ParentEntryHugePage);
+        }
 
         p3_entry.set_flags(flags);
 
@@ -485,6 +488,9 @@ impl<P: PageTableFrameMapping> Mapper<Size4KiB> for MappedPageTable<'_, P> {
         if p3_entry.is_unused() {
             return Err(FlagUpdateError::PageNotMapped);
         }
+        if p3_entry.flags().contains(PageTableFlags::HUGE_PAGE) {
+            return Err(FlagUpdateError::ParentEntryHugePage);
+        }
 
         p3_entry.set_flags(flags);
 
@@ -507,6 +513,9 @@ impl<P: PageTableFrameMapping> Mapper<Size4KiB> for MappedPageTable<'_, P> {
 
         if p2_entry.is_unused() {
             return Err(FlagUpdateError::PageNotMapped);
+        }
+        if p2_entry.flags().contains(PageTableFlags::HUGE_PAGE) {
+            return Err(FlagUpdateError::ParentEntryHugePage);
         }
 
         p2_entry.set_flags(flags);
